@@ -92,3 +92,253 @@ Fixpoint raw_walk (ls : list tlab) (now : N) (ts : list rtask) (cur : option tla
   end.
 
 Definition raw_ok (ls : list tlab) (out : list tout) : bool := raw_walk ls 0 [] None out.
+
+(* ---- common walking state for the operator predicates ---- *)
+Record wstate := {
+  w_now : N;
+  w_cur : option tlab;                 (* the label being processed *)
+  w_src : list (ev * N);               (* input notifications accepted by the operator, with their time *)
+  w_src_done : bool;                   (* the input has terminated *)
+  w_unsub : bool;                      (* unsubscribe() has returned *)
+  w_finished : bool;                   (* a terminal was delivered to the subscriber *)
+  w_delivered : list nat;              (* indices of input notifications already delivered (relay), or count (others) *)
+  w_subscribed : bool                  (* the operator is subscribed to its input (delayed subscription) *)
+}.
+
+Definition w0 (subscribed : bool) : wstate :=
+  {| w_now := 0; w_cur := None; w_src := []; w_src_done := false; w_unsub := false; w_finished := false;
+     w_delivered := []; w_subscribed := subscribed |}.
+
+(* a new label starts: clock, input log, unsubscription *)
+Definition w_label (w : wstate) (l : option tlab) : wstate :=
+  match l with
+  | Some (LAdv dt) => {| w_now := w_now w + dt; w_cur := l; w_src := w_src w; w_src_done := w_src_done w; w_unsub := w_unsub w;
+                         w_finished := w_finished w; w_delivered := w_delivered w; w_subscribed := w_subscribed w |}
+  | Some (LSrc e) =>
+      if w_src_done w then {| w_now := w_now w; w_cur := l; w_src := w_src w; w_src_done := true; w_unsub := w_unsub w;
+                              w_finished := w_finished w; w_delivered := w_delivered w; w_subscribed := w_subscribed w |}
+      else {| w_now := w_now w; w_cur := l;
+              w_src := if w_subscribed w && negb (w_unsub w) then w_src w ++ [(e, w_now w)] else w_src w;
+              w_src_done := is_term e; w_unsub := w_unsub w; w_finished := w_finished w;
+              w_delivered := w_delivered w; w_subscribed := w_subscribed w |}
+  | Some LUnsub => {| w_now := w_now w; w_cur := l; w_src := w_src w; w_src_done := w_src_done w; w_unsub := true;
+                      w_finished := w_finished w; w_delivered := w_delivered w; w_subscribed := w_subscribed w |}
+  | _ => {| w_now := w_now w; w_cur := l; w_src := w_src w; w_src_done := w_src_done w; w_unsub := w_unsub w;
+            w_finished := w_finished w; w_delivered := w_delivered w; w_subscribed := w_subscribed w |}
+  end.
+
+Definition w_deliver (w : wstate) (idx : nat) (e : ev) : wstate :=
+  {| w_now := w_now w; w_cur := w_cur w; w_src := w_src w; w_src_done := w_src_done w; w_unsub := w_unsub w;
+     w_finished := w_finished w || is_term e; w_delivered := idx :: w_delivered w; w_subscribed := w_subscribed w |}.
+
+Definition ev_eqb (a b : ev) : bool :=
+  match a, b with
+  | Next x, Next y => val_eqb x y
+  | Err x, Err y => Z.eqb x y
+  | Done, Done => true
+  | _, _ => false
+  end.
+
+Definition memn' (i : nat) (l : list nat) : bool := existsb (Nat.eqb i) l.
+
+(* ---- predicates as walks: a step function over the trace, rejecting with None ---- *)
+Section Walk.
+  Variable St : Type.
+  Variable step : St -> tout -> option St.
+  Fixpoint walk (s : St) (out : list tout) : option St :=
+    match out with
+    | [] => Some s
+    | x :: r => match step s x with Some s' => walk s' r | None => None end
+    end.
+End Walk.
+Arguments walk {St} step s out.
+
+Definition accepted {St} (r : option St) : bool := match r with Some _ => true | None => false end.
+
+(* ---- C07: delay d / observe_on (d = 0): every delivery is the notification of the task that
+   is being polled, made at or after its arrival + d, at most once, and not after a terminal or
+   after unsubscribe() returned.  `direct_err`: delay forwards errors at once. *)
+Definition task_events (direct_err : bool) (w : wstate) : list (ev * N) :=
+  filter (fun p => negb (direct_err && match fst p with Err _ => true | _ => false end)) (w_src w).
+
+Definition relay_step (d : N) (direct_err : bool) (ls : list tlab) (w : wstate) (x : tout) : option wstate :=
+  match x with
+  | TMark j => Some (w_label w (nth_error ls j))
+  | TOut at_time e =>
+      if negb (w_finished w) && negb (w_unsub w) && (at_time =? w_now w) then
+        match w_cur w with
+        | Some (LRun t) =>
+            (* tasks are created one per accepted input notification (errors excepted when forwarded directly) *)
+            match nth_error (task_events direct_err w) t with
+            | Some (e', arrived) =>
+                if ev_eqb e e' && (arrived + d <=? at_time) && negb (memn' t (w_delivered w))
+                then Some (w_deliver w t e) else None
+            | None => None
+            end
+        | Some (LSrc (Err x)) => if direct_err && ev_eqb e (Err x) then Some (w_deliver w 0 e) else None
+        | _ => None
+        end
+      else None
+  | _ => Some w
+  end.
+
+Definition relay_ok (d : N) (direct_err : bool) (ls : list tlab) (out : list tout) : bool :=
+  accepted (walk (relay_step d direct_err ls) (w0 true) out).
+
+(* ---- C08: interval / interval_at / timer ---- *)
+(* consecutive integers from `next`, the first not before `earliest`, each later one at least one
+   period after the previous one, only while task 0 is being polled, not after unsubscribe *)
+Record istate := { i_w : wstate; i_next : nat; i_earliest : N }.
+
+Definition interval_step (p : N) (ls : list tlab) (s : istate) (x : tout) : option istate :=
+  match x with
+  | TMark j => Some {| i_w := w_label (i_w s) (nth_error ls j); i_next := i_next s; i_earliest := i_earliest s |}
+  | TOut at_time e =>
+      let w := i_w s in
+      if negb (w_unsub w) && (at_time =? w_now w) && (i_earliest s <=? at_time) &&
+         match w_cur w with Some (LRun 0) => true | _ => false end &&
+         ev_eqb e (Next (VZ (Z.of_nat (i_next s))))
+      then Some {| i_w := w; i_next := S (i_next s); i_earliest := at_time + p |}
+      else None
+  | _ => Some s
+  end.
+
+Definition interval_ok (first : N) (p : N) (ls : list tlab) (out : list tout) : bool :=
+  accepted (walk (interval_step p ls) {| i_w := w0 false; i_next := 0; i_earliest := first |} out).
+
+(* the item once, not before `d`, then completion *)
+Definition timer_step (v : val) (d : N) (ls : list tlab) (s : istate) (x : tout) : option istate :=
+  match x with
+  | TMark j => Some {| i_w := w_label (i_w s) (nth_error ls j); i_next := i_next s; i_earliest := i_earliest s |}
+  | TOut at_time e =>
+      let w := i_w s in
+      if negb (w_unsub w) && (at_time =? w_now w) && (d <=? at_time) &&
+         match i_next s with
+         | O => ev_eqb e (Next v)
+         | S O => ev_eqb e Done
+         | _ => false
+         end
+      then Some {| i_w := w; i_next := S (i_next s); i_earliest := i_earliest s |}
+      else None
+  | _ => Some s
+  end.
+
+Definition timer_ok (v : val) (d : N) (ls : list tlab) (out : list tout) : bool :=
+  accepted (walk (timer_step v d ls) {| i_w := w0 false; i_next := 0; i_earliest := 0 |} out).
+
+(* ---- C09: rate limiting ---- *)
+Fixpoint is_subseq (a b : list val) : bool :=   (* a is a sub-sequence of b *)
+  match a, b with
+  | [], _ => true
+  | _, [] => false
+  | x :: a', y :: b' => if val_eqb x y then is_subseq a' b' else is_subseq a b'
+  end.
+
+Definition src_items (w : wstate) : list val :=
+  flat_map (fun p => match fst p with Next v => [v] | _ => [] end) (w_src w).
+
+(* collect what was delivered, checking the grammar and the silence after unsubscribe on the way *)
+Definition collect_step (ls : list tlab) (s : wstate * list val) (x : tout) : option (wstate * list val) :=
+  let '(w, acc) := s in
+  match x with
+  | TMark j => Some (w_label w (nth_error ls j), acc)
+  | TOut at_time e =>
+      if negb (w_finished w) && negb (w_unsub w) && (at_time =? w_now w) then
+        match e with
+        | Next v => Some (w, acc ++ [v])
+        | _ => Some (w_deliver w 0 e, acc)
+        end
+      else None
+  | _ => Some s
+  end.
+
+(* debounce / throttle: only input items, each at most once, in input order *)
+Definition subseq_ok (ls : list tlab) (out : list tout) : bool :=
+  match walk (collect_step ls) (w0 true, []) out with
+  | Some (w, items) => is_subseq items (src_items w)
+  | None => false
+  end.
+
+(* buffers: never empty, never above the count limit, their concatenation a prefix of the input,
+   and the whole input once the output has completed *)
+Fixpoint is_prefix (a b : list val) : bool :=
+  match a, b with
+  | [], _ => true
+  | x :: a', y :: b' => val_eqb x y && is_prefix a' b'
+  | _, [] => false
+  end.
+
+Definition buffers_ok (limit : option nat) (ls : list tlab) (out : list tout) : bool :=
+  match walk (collect_step ls) (w0 true, []) out with
+  | Some (w, bufs) =>
+      let sizes_ok := forallb (fun b => match b with
+                                        | VL l => negb (Nat.eqb (length l) 0) &&
+                                                  match limit with Some n => Nat.leb (length l) (Nat.max n 1) | None => true end
+                                        | _ => false end) bufs in
+      let flat := flat_map (fun b => match b with VL l => l | _ => [] end) bufs in
+      sizes_ok && is_prefix flat (src_items w) &&
+      (* completed normally: nothing was lost *)
+      (negb (w_finished w && existsb (fun p => match fst p with Done => true | _ => false end) (w_src w)
+             && negb (existsb (fun p => match fst p with Err _ => true | _ => false end) (w_src w)))
+       || Nat.eqb (length flat) (length (src_items w)))
+  | None => false
+  end.
+
+(* delay_subscription d / subscribe_on (d = 0): the subscriber sees the input's own notifications,
+   none before the delay has elapsed, none after unsubscribe() returned, at most one terminal *)
+Definition passthru_step (d : N) (ls : list tlab) (w : wstate) (x : tout) : option wstate :=
+  match x with
+  | TMark j => Some (w_label w (nth_error ls j))
+  | TOut at_time e =>
+      if negb (w_finished w) && negb (w_unsub w) && (at_time =? w_now w) && (d <=? at_time) then
+        match w_cur w with
+        | Some (LSrc e') => if ev_eqb e e' then Some (w_deliver w 0 e) else None
+        | _ => None
+        end
+      else None
+  | _ => Some w
+  end.
+
+Definition passthru_ok (d : N) (ls : list tlab) (out : list tout) : bool :=
+  accepted (walk (passthru_step d ls) (w0 true) out).
+
+(* the predicate that judges operator `o` *)
+Definition timed_ok (o : top) (ls : list tlab) (out : list tout) : bool :=
+  match o with
+  | TDelay d => relay_ok d true ls out
+  | TObserveOn => relay_ok 0 false ls out
+  | TDelaySubscription d => passthru_ok d ls out
+  | TSubscribeOn => passthru_ok 0 ls out
+  | TDebounce _ | TThrottle _ _ => subseq_ok ls out
+  | TBufferTime _ => buffers_ok None ls out
+  | TBufferCountTime n _ => buffers_ok (Some n) ls out
+  | TInterval p => interval_ok p p ls out
+  | TIntervalAt dl p => interval_ok dl p ls out
+  | TTimer v d => timer_ok v d ls out
+  | TRaw => raw_ok ls out
+  end.
+
+(* ---- exactness when the executor runs as the timers fall due ---- *)
+Fixpoint prompt_labels (p : N) (n : nat) : list tlab :=
+  match n with O => [] | S n' => LAdv p :: LRun 0 :: prompt_labels p n' end.
+
+Fixpoint prompt_trace (p : N) (n : nat) (j : nat) (k : nat) (t : N) : list tout :=
+  match n with
+  | O => []
+  | S n' => TMark j :: TMark (S j) :: TOut (t + p) (Next (VZ (Z.of_nat k))) :: prompt_trace p n' (S (S j)) (S k) (t + p)
+  end.
+
+(* interval p polled exactly at every multiple of p; interval_at dl p (dl > 0) polled at
+   subscription, at dl, and then at every further multiple of p *)
+Definition prompt_case (o : top) (n : nat) : option (list tlab * list tout) :=
+  match o with
+  | TInterval p => Some (prompt_labels p n, prompt_trace p n 0 0 0)
+  | TIntervalAt dl p =>
+      if dl =? 0 then None
+      else Some (LRun 0 :: LAdv dl :: LRun 0 :: prompt_labels p n,
+                 TMark 0 :: TMark 1 :: TMark 2 :: TOut dl (Next (VZ 0)) :: prompt_trace p n 3 1 dl)
+  | _ => None
+  end.
+
+(* the _at forms: the time remaining until the configured instant, zero if it has passed *)
+Definition remaining (at_instant now_instant : Z) : Z := Z.max 0 (at_instant - now_instant)%Z.
